@@ -42,6 +42,7 @@ CLAIM = dict(
 THEOREMS = ["routes_enum_documented", "traverse_exact", "tables_exact", "multisource_iff", "tables_total",
             "tables_spec", "rte_roundtrip", "route_word_bits", "load_exact", "load_alloc_failure",
             "readback_exact", "load_then_readback", "clear_exact"]
+THEOREMS += ['gen_inDir']   # translator tie: generated function bodies = model (Props/C10Gen.lean)
 
 RULE = ("pure cases = forests of 1-6 nets on a 4x4 torus: random branching trees/chains with vertex leaves (core route, link "
         "route or None), key/mask drawn from a pool of 1-3 so nets share them, later nets re-using (copying) subtrees of "
